@@ -429,6 +429,16 @@ func c03Control(c *Ctx) {
 						req = dm.(*hsms.ControlMessage)
 					}
 				}
+				if s%4 == 2 && from == rk.from {
+					// a request as a PEER may have sent it: right SType, arbitrary session id and header bytes 2/3
+					// (a Linktest.req whose session id is not 0xFFFF, a Select.req with a non-zero byte 2)
+					raw := frame(uint16(r.IntN(65536)), byte(r.IntN(256)), byte(r.IntN(256)), rk.stype-1, sysAt(n+s))
+					if dm, err := hsms.DecodeHSMSMessage(raw); err == nil {
+						if cm, ok := dm.(*hsms.ControlMessage); ok {
+							req = cm
+						}
+					}
+				}
 				h := req.HeaderBytes()
 				line := fmt.Sprintf("hsms.ctl %s %s", rk.name, hex.EncodeToString(h[:]))
 				if rk.name != "linktestRsp" {
